@@ -83,3 +83,23 @@ Lemma w2_witness : exists s0 s1 s2 s3,
   delete_bias gen_tables 20 1 s2 = Some s3 /\
   o_children (get_obj s3 1) = [] /\ o_parents (get_obj s3 0) = [] /\ is_enabled s3 0 0 = false.
 Proof. do 4 eexists. wit. Qed.
+
+(* ------------------------------------------------------------------------------------------
+   Termination of enable on the real tables (both variants): table lengths <= 38, so fuel above
+   height(o) * 39 + 38 suffices; with the four levels bias(3) > variable(2) > component(1) > atom group(0)
+   that is at most 155. *)
+Lemma gen_enable_terminates : forall T, T = gen_tables \/ T = gen_tables_lagged ->
+  forall (h : nat -> nat) (s0 : state), (forall o c, In c (o_children (get_obj s0 o)) -> h c < h o) ->
+  forall n o f dry top err s, same_shape s0 s -> h o * 39 + 38 < n ->
+  exists r s', enable T n o f dry top err s = Some (r, s') /\ same_shape s0 s'.
+Proof.
+  intros T [HT|HT]; subst T; apply (enable_terminates_tables _ 38); vm_compute; reflexivity.
+Qed.
+
+Lemma gen_restore_terminates : forall T, T = gen_tables \/ T = gen_tables_lagged ->
+  forall (h : nat -> nat) (s0 : state), (forall o c, In c (o_children (get_obj s0 o)) -> h c < h o) ->
+  forall n o s, same_shape s0 s -> h o * 39 <= n ->
+  exists s', restore_children_deps T n o s = Some s' /\ same_shape s0 s'.
+Proof.
+  intros T [HT|HT]; subst T; apply (restore_terminates_tables _ 38); vm_compute; reflexivity.
+Qed.
